@@ -16,6 +16,7 @@ ap.add_argument("--tier", default="quick")
 ap.add_argument("--seed", default="1")
 ap.add_argument("--keep", action="store_true")
 ap.add_argument("--count", type=int, default=1, help="replace only first N occurrences")
+ap.add_argument("--line", type=int, default=None, help="restrict the replacement to this 1-based line number")
 ap.add_argument("checks", nargs="+")
 a = ap.parse_args()
 wt = tempfile.mkdtemp(prefix="wbmut_", dir="/var/tmp")
@@ -28,9 +29,16 @@ try:
     else:
         p = os.path.join(wt, a.file)
         s = open(p).read()
-        if a.old not in s:
-            print("MUTANT-ERROR: old text not found"); sys.exit(3)
-        open(p, "w").write(s.replace(a.old, a.new, a.count))
+        if a.line:
+            lines = s.split("\n")
+            if a.old not in lines[a.line - 1]:
+                print("MUTANT-ERROR: old text not found on line", a.line, repr(lines[a.line - 1])); sys.exit(3)
+            lines[a.line - 1] = lines[a.line - 1].replace(a.old, a.new)
+            open(p, "w").write("\n".join(lines))
+        else:
+            if a.old not in s:
+                print("MUTANT-ERROR: old text not found"); sys.exit(3)
+            open(p, "w").write(s.replace(a.old, a.new, a.count))
     here = os.path.dirname(os.path.dirname(os.path.abspath(__file__)))
     for c in a.checks:
         env = dict(os.environ, VERIF_REPO=wt, VERIF_SEED=a.seed)
